@@ -198,7 +198,23 @@ func run(pass *analysis.Pass) (any, error) {
 					// in a struct initializer.
 					return true
 				}
-				sel := &ast.SelectorExpr{X: v.Type, Sel: key}
+				// The type of the literal may be instantiated (T[int]{...}); the selector we
+				// construct refers to the generic type.
+				typ := v.Type
+			unwrap:
+				for {
+					switch t := typ.(type) {
+					case *ast.IndexExpr:
+						typ = t.X
+					case *ast.IndexListExpr:
+						typ = t.X
+					case *ast.ParenExpr:
+						typ = t.X
+					default:
+						break unwrap
+					}
+				}
+				sel := &ast.SelectorExpr{X: typ, Sel: key}
 				checkIdentObj(sel)
 			}
 		}
